@@ -133,8 +133,109 @@ fn stop_table(nonstop: &dyn Fn(char) -> bool, problems: &mut Vec<String>, what: 
     stops
 }
 
+/// how the JSON printer writes every code point (one-character strings, one per row), in one run per string mode:
+/// `raw`, `esc:<letter>` (backslash + one character) or `u4` (\u + four lower-case hex digits); anything else is a problem
+fn print_classes(utf8: bool, cps: &[u32], problems: &mut Vec<String>) -> Vec<(u32, String)> {
+    let mut input = String::new();
+    for cp in cps {
+        if *cp < 0x10000 {
+            input.push_str(&format!("\"\\u{:04x}\"\n", cp));
+        } else {
+            input.push_str(&format!("\"{}\"\n", char::from_u32(*cp).unwrap()));
+        }
+    }
+    let args: Vec<&str> = if utf8 { vec!["--utf8-strings"] } else { vec![] };
+    let r = go_once(&args, input.as_bytes());
+    let mut out = Vec::new();
+    if !r.ok {
+        problems.push(format!("printer probe (utf8={utf8}): the run failed: {}", r.disp));
+        return out;
+    }
+    let text = String::from_utf8_lossy(&r.out).into_owned();
+    let rows: Vec<&str> = text.split('\n').filter(|l| !l.is_empty()).collect();
+    if rows.len() != cps.len() {
+        problems.push(format!("printer probe (utf8={utf8}): {} rows for {} strings", rows.len(), cps.len()));
+        return out;
+    }
+    for (cp, row) in cps.iter().zip(rows) {
+        let body = row.strip_prefix('"').and_then(|x| x.strip_suffix('"')).unwrap_or("?");
+        let ch = char::from_u32(*cp).unwrap();
+        let class = if body.chars().count() == 1 && body.chars().next() == Some(ch) {
+            "raw".to_string()
+        } else if body.len() == 2 && body.starts_with('\\') {
+            format!("esc:{}", body.chars().nth(1).unwrap() as u32)
+        } else if body.len() == 6 && body.starts_with("\\u") && body[2..].chars().all(|c| c.is_ascii_digit() || ('a'..='f').contains(&c))
+            && u32::from_str_radix(&body[2..], 16).ok() == Some(*cp) {
+            "u4".to_string()
+        } else {
+            format!("other:{}", body.chars().take(12).collect::<String>())
+        };
+        out.push((*cp, class));
+    }
+    out
+}
+
+/// what `read_string` makes of `\` followed by each byte: the character it denotes, or nothing (an error)
+fn parse_escapes() -> Vec<(usize, u32)> {
+    let mut v = Vec::new();
+    for b in 0usize..128 {
+        if b == b'u' as usize {
+            continue;
+        }
+        let input = [b"\"\\".as_slice(), &[b as u8], b"\"".as_slice()].concat();
+        let r = go_once(&["--on-error", "stderr", "--output-style", "text"], &input);
+        if r.ok && r.err.is_empty() {
+            let t = String::from_utf8_lossy(&r.out).into_owned();
+            let t = t.strip_suffix('\n').unwrap_or(&t);
+            if t.chars().count() == 1 {
+                v.push((b, t.chars().next().unwrap() as u32));
+            }
+        }
+    }
+    v
+}
+
+fn ranges(cps: &[u32]) -> String {
+    let mut out: Vec<(u32, u32)> = vec![];
+    for c in cps {
+        match out.last_mut() {
+            Some((_, hi)) if *hi + 1 == *c => *hi = *c,
+            _ => out.push((*c, *c)),
+        }
+    }
+    format!("[{}]", out.iter().map(|(a, b)| format!("[{a}, {b}]")).collect::<Vec<_>>().join(", "))
+}
+
 pub fn cmd_probe() -> i32 {
     let mut problems: Vec<String> = Vec::new();
+    // the printer on every code point of the BMP (surrogates apart) and a sample of the other planes (with --utf8-strings)
+    let bmp: Vec<u32> = (0u32..0x10000).filter(|c| !(0xD800..0xE000).contains(c)).collect();
+    let astral: Vec<u32> = (0..1024u32).map(|k| 0x10000 + k * 1024 + (k % 7)).filter(|c| *c <= 0x10FFFF).collect();
+    let ascii_mode = print_classes(false, &bmp, &mut problems);
+    let mut all = bmp.clone();
+    all.extend(&astral);
+    let utf8_mode = print_classes(true, &all, &mut problems);
+    let esc_of = |v: &[(u32, String)]| -> Vec<(u32, u32)> { v.iter().filter_map(|(c, k)| k.strip_prefix("esc:").and_then(|l| l.parse().ok()).map(|l| (*c, l))).collect() };
+    let of = |v: &[(u32, String)], k: &str| -> Vec<u32> { v.iter().filter(|(_, x)| x == k).map(|(c, _)| *c).collect() };
+    for (c, k) in ascii_mode.iter().chain(utf8_mode.iter()) {
+        if k.starts_with("other:") {
+            problems.push(format!("printer: U+{:04X} is written as {}", c, &k[6..]));
+            break;
+        }
+    }
+    if esc_of(&ascii_mode) != esc_of(&utf8_mode).into_iter().filter(|(c, _)| *c < 0x10000).collect::<Vec<_>>() {
+        problems.push("printer: the two-character escapes differ between the two string modes".into());
+    }
+    // the sample of the other planes: all written as they are with --utf8-strings?
+    let astral_raw = utf8_mode.iter().filter(|(c, _)| *c >= 0x10000).all(|(_, k)| k == "raw");
+    let utf8_mode: Vec<(u32, String)> = utf8_mode.into_iter().filter(|(c, _)| *c < 0x10000).collect();
+    let print_json = format!(
+        "{{\"escapes\": [{}], \"raw_ascii\": {}, \"u4_ascii\": {}, \"raw_utf8\": {}, \"u4_utf8\": {}, \"astral_raw_utf8\": {astral_raw}}}",
+        esc_of(&ascii_mode).iter().map(|(c, l)| format!("[{c}, {l}]")).collect::<Vec<_>>().join(", "),
+        ranges(&of(&ascii_mode, "raw")), ranges(&of(&ascii_mode, "u4")), ranges(&of(&utf8_mode, "raw")), ranges(&of(&utf8_mode, "u4"))
+    );
+    let pe = parse_escapes();
+    let parse_json = format!("[{}]", pe.iter().map(|(b, c)| format!("[{b}, {c}]")).collect::<Vec<_>>().join(", "));
     let kinds: [(&str, &[u8], &[u8]); 8] = [
         ("true", b"rue", b"true\n"),
         ("false", b"alse", b"false\n"),
@@ -187,8 +288,8 @@ pub fn cmd_probe() -> i32 {
     let var_stop = stop_table(&var_nonstop, &mut problems, "variable name");
     let starts_json = starts.iter().map(|(k, v)| format!("[\"{}\", {}]", k, json_list(v))).collect::<Vec<_>>().join(", ");
     println!(
-        "{{\"whitespace\": {}, \"garbage\": {}, \"value_start\": [{}], \"fn_name_stop\": {}, \"key_stop\": {}, \"var_stop\": {}, \"runs\": {}, \"problems\": [{}]}}",
-        json_list(&ws), json_list(&garbage), starts_json, json_list(&fn_stop), json_list(&key_stop), json_list(&var_stop),
+        "{{\"whitespace\": {}, \"garbage\": {}, \"value_start\": [{}], \"fn_name_stop\": {}, \"key_stop\": {}, \"var_stop\": {}, \"printer\": {}, \"parse_escapes\": {}, \"runs\": {}, \"problems\": [{}]}}",
+        json_list(&ws), json_list(&garbage), starts_json, json_list(&fn_stop), json_list(&key_stop), json_list(&var_stop), print_json, parse_json,
         256 * 11 + 3 * (128 + multibyte_chars().len()),
         problems.iter().map(|p| format!("{:?}", p)).collect::<Vec<_>>().join(", ")
     );
